@@ -1,5 +1,6 @@
 # -*- coding: utf-8 -*-
 import numpy as np
+import datetime
 from pyg_base._types import is_nan, is_iterable
 from pyg_base._loop import len0
 from pyg_base._as_primitive import as_primitive
@@ -47,8 +48,9 @@ def cmp(x,y):
         return 0
     x,y = as_primitive([x,y])
     # ints rank with the floats but keep their exact value: float(2**53+1) == float(2**53) would make distinct keys equal
-    tx = str(float if isinstance(x, int) and not isinstance(x, bool) else type(x))
-    ty = str(float if isinstance(y, int) and not isinstance(y, bool) else type(y))
+    # subclasses of datetime (pd.Timestamp, which as_primitive keeps) rank with the datetimes they are compared with by value
+    tx = str(float if isinstance(x, int) and not isinstance(x, bool) else datetime.datetime if isinstance(x, datetime.datetime) else type(x))
+    ty = str(float if isinstance(y, int) and not isinstance(y, bool) else datetime.datetime if isinstance(y, datetime.datetime) else type(y))
     if tx<ty:
         return -1
     elif ty<tx:
